@@ -14,6 +14,7 @@ tree; exit 1 is a false alarm, exit 2 a rule that pinned the text instead of the
   T6 split-and     if a and b: X    ->  if a: (if b: X)      (no else)
   T7 temp-return   return <expr>    ->  _rv = <expr>; return _rv
   T8 expand-in     x in (A, B) -> x == A or x == B
+  T10 rename-private-functions  every private function/method of the package `_f` -> `_f_rn`, all references included
   T9 negate-eq     a != b -> not (a == b), a is not b -> not (a is b), a not in b -> not (a in b)
 
 Usage: tools/metamorph.py [T1 T3 ...] [--tier quick|thorough|both] [--props C01,C07] [--bisect]
@@ -216,6 +217,58 @@ class NegateEq(ast.NodeTransformer):
         return node
 
 
+class RenamePrivateFuncs(ast.NodeTransformer):
+    """package-wide: every private function / method `_name` defined in the package -> `_name_rn` (definition,
+    attribute references, bare references, from-imports). The set of names is collected over the whole package."""
+    NAMES: set = set()
+
+    def visit_FunctionDef(self, node):
+        self.generic_visit(node)
+        if node.name in self.NAMES:
+            node.name += "_rn"
+        return node
+
+    visit_AsyncFunctionDef = visit_FunctionDef
+
+    def visit_Attribute(self, node):
+        self.generic_visit(node)
+        if node.attr in self.NAMES:
+            node.attr += "_rn"
+        return node
+
+    def visit_Name(self, node):
+        if node.id in self.NAMES:
+            node.id += "_rn"
+        return node
+
+    def visit_ImportFrom(self, node):
+        for a in node.names:
+            if a.name in self.NAMES:
+                a.name += "_rn"
+        return node
+
+
+def _collect_private_funcs():
+    names, other = set(), set()
+    for root, _d, files in os.walk(os.path.join(REPO, "optuna")):
+        for fn in files:
+            if fn.endswith(".py"):
+                try:
+                    tree = ast.parse(open(os.path.join(root, fn), encoding="utf-8").read())
+                except SyntaxError:
+                    continue
+                for n in ast.walk(tree):
+                    if isinstance(n, (ast.FunctionDef, ast.AsyncFunctionDef)) and n.name.startswith("_") and not n.name.endswith("__"):
+                        names.add(n.name)
+                    elif isinstance(n, ast.ClassDef):
+                        other.add(n.name)
+                    elif isinstance(n, ast.Name) and isinstance(n.ctx, ast.Store):
+                        other.add(n.id)
+                    elif isinstance(n, ast.arg):
+                        other.add(n.arg)
+    return names - other  # a name also used for a variable / parameter / class is left alone
+
+
 TRANSFORMS = {
     "T0": ("reformat", None),
     "T1": ("swap-compare", SwapCompare),
@@ -227,6 +280,7 @@ TRANSFORMS = {
     "T7": ("temp-return", TempReturn),
     "T8": ("expand-in-tuple", ExpandIn),
     "T9": ("negate-eq", NegateEq),
+    "T10": ("rename-private-functions", RenamePrivateFuncs),
 }
 
 
@@ -242,6 +296,8 @@ def transform_source(src: str, tname: str) -> str:
 
 
 def build_tree(tname: str, only: str | None = None) -> str:
+    if tname == "T10" and not RenamePrivateFuncs.NAMES:
+        RenamePrivateFuncs.NAMES = _collect_private_funcs()
     tmp = tempfile.mkdtemp(prefix=f"meta_{tname}_")
     shutil.copytree(os.path.join(REPO, "optuna"), os.path.join(tmp, "optuna"))
     for root, _dirs, files in os.walk(os.path.join(tmp, "optuna")):
